@@ -197,6 +197,30 @@ def _multi_case(rng: Rng):
 def gen_cases(rng: Rng, tier):
     n = dict(quick=330, thorough=4400)[tier]
     big = tier == "thorough"
+    # options meant for ONE family reaching another: the documented keywords of Basis / _simulate_basis (degree, domain_min,
+    # domain_max) handed to every family, alone and inside mixed multi-dimensional / multivariate bases — same cases in every run
+    fgrid = {"fourier": [Fraction(1) + Fraction(i, 8) for i in range(17)], "wiener": [Fraction(i, 16) for i in range(17)],
+             "legendre": [Fraction(-1) + Fraction(i, 8) for i in range(17)]}
+    foreigns = [dict(degree=2), dict(dmin="0", dmax="10"), dict(dmin="3/2", dmax="2"), dict(degree=1, dmin="-5", dmax="7")]
+    for fam_, g in fgrid.items():
+        for fk in foreigns:
+            for add_ in (True, False):
+                yield dict(kind="sim", fam=fam_, n=4, add=add_, norm=False, x=[rs(v) for v in g], foreign=fk, structured=True)
+            yield dict(kind="basis1", fam=fam_, n=3, add=True, norm=False, x=[rs(v) for v in g], foreign=fk, structured=True, labels=None)
+        yield dict(kind="ortho", fam=fam_, n=5, x=[rs(v) for v in ([Fraction(i, 32) for i in range(33)] if fam_ != "legendre" else
+                                                                     [F(float(v)) for v in np.polynomial.legendre.leggauss(16)[0]])],
+                   **({"w": [rs(F(float(v))) for v in np.polynomial.legendre.leggauss(16)[1]]} if fam_ == "legendre" else {}),
+                   foreign=dict(dmin="-3", dmax="9", degree=2), structured=True)
+    mixes = [("bsplines", "fourier"), ("fourier", "bsplines"), ("fourier", "legendre"), ("wiener", "bsplines"), ("legendre", "wiener"), ("fourier", "fourier")]
+    for f1_, f2_ in mixes:
+        g1 = [Fraction(i, 4) for i in range(5)] if f1_ != "legendre" else [Fraction(-1) + Fraction(i, 2) for i in range(5)]
+        g2 = [Fraction(i, 8) for i in range(7)] if f2_ != "legendre" else [Fraction(-1) + Fraction(i, 3) for i in range(7)]
+        for dom in (("-1", "3"), ("0", "1")):
+            yield dict(kind="basis2", fam=[f1_, f2_], n=[3, 4], p=2, add=True, norm=False, x1=[rs(v) for v in g1], x2=[rs(v) for v in g2],
+                       dmin=dom[0], dmax=dom[1], iso=False, labels=("t", "s", "r"), structured=True)
+        yield dict(kind="multi", comps=[dict(fam=[f1_, f2_], n=[2, 3], x=[[rs(v) for v in g1], [rs(v) for v in g2]]),
+                                        dict(fam=[f2_], n=[6], x=[[rs(v) for v in g2]])],
+                   p=1, add=True, norm=False, labels=None, dmin="-2", dmax="4", structured=True)
     # closed-form families on grids that do NOT contain the end points of their interval ([0,1] for Wiener, [-1,1] for
     # Legendre), and on sub-intervals / shifted ranges — the same structured cases in every run
     N_ = 20
@@ -395,6 +419,19 @@ def _bs_kwargs(case):
     return kw
 
 
+def _foreign_kwargs(case):
+    """Keywords documented for `Basis` / `_simulate_basis` that concern the B-splines family only, handed to a basis of ANOTHER
+    family: they must change nothing there."""
+    fk = case.get("foreign") or {}
+    kw = {}
+    if "degree" in fk:
+        kw["degree"] = fk["degree"]
+    if "dmin" in fk:
+        kw["domain_min"] = float(F(fk["dmin"]))
+        kw["domain_max"] = float(F(fk["dmax"]))
+    return kw
+
+
 def _multi_kwargs(case):
     kw = {}
     if case.get("p") is not None:
@@ -429,7 +466,7 @@ def run_impl(case):
         if case.get("xdtype"):  # the same grid in another storage type (lossless by construction of the case)
             x = x.tolist() if case["xdtype"] == "list" else x.astype({"int64": np.int64, "int32": np.int32, "float32": np.float32}[case["xdtype"]])
         fam = case["fam"]
-        kw = _bs_kwargs(case) if fam == "bsplines" else {}
+        kw = _bs_kwargs(case) if fam == "bsplines" else _foreign_kwargs(case)
         if kind == "sim":
             raw = _sim(fam, x, case["n"], False, case["add"], **kw)
             val = _sim(fam, x, case["n"], case["norm"], case["add"], **kw)
@@ -500,6 +537,7 @@ def run_impl(case):
             out["v"] = np.asarray(b.values).reshape(b.values.shape[0], -1).tolist()
             out["m1"] = _sim(f1, x1, n1, case["norm"], case["add"], **kw).tolist()
             out["m2"] = _sim(f2, x2, n2, case["norm"], case["add"], **kw).tolist()
+            out["marg_raw"] = [_sim(f1, x1, n1, False, case["add"], **kw).tolist(), _sim(f2, x2, n2, False, case["add"], **kw).tolist()]
     elif kind == "basis3":
         from FDApy.representation.argvals import DenseArgvals
         from FDApy.representation.basis import Basis
@@ -511,6 +549,7 @@ def run_impl(case):
         out["shape"] = list(b.values.shape)
         out["v"] = np.asarray(b.values).reshape(b.values.shape[0], -1).tolist()
         out["marg"] = [_sim(f, x, n, case["norm"], case["add"], **kw).tolist() for f, n, x in zip(case["fam"], case["n"], xs3)]
+        out["marg_raw"] = [_sim(f, x, n, False, case["add"], **kw).tolist() for f, n, x in zip(case["fam"], case["n"], xs3)]
     elif kind == "multi":
         from FDApy.representation.argvals import DenseArgvals
         from FDApy.representation.basis import Basis, MultivariateBasis
@@ -530,6 +569,7 @@ def run_impl(case):
                          for nm, nf, ar in zip(names, nfs, args)]
         # the marginal families, with the same options
         out["marg"] = [[_sim(f, _arr(x), n, case["norm"], case["add"], **kw).tolist() for f, n, x in zip(c["fam"], c["n"], c["x"])] for c in comps]
+        out["marg_raw"] = [[_sim(f, _arr(x), n, False, case["add"], **kw).tolist() for f, n, x in zip(c["fam"], c["n"], c["x"])] for c in comps]
         try:
             from FDApy.simulation.karhunen import KarhunenLoeve
 
@@ -842,6 +882,17 @@ def _oracle_closed_form(case, raw, entry, bad):
         bad("closed_form", f"{fam} function {i + (0 if add else 1)} at t={xs[j]!r} ({span}): {V[i, j]!r} vs closed form {want[i, j]!r}", entry)
 
 
+def _oracle_marginals(fams, ns, xs, add, raws, entry, bad, opts):
+    """The marginal families that do not document the options of the whole basis must give exactly their closed-form values."""
+    for f, n, x, raw in zip(fams, ns, xs, raws):
+        if f in ("wiener", "fourier", "legendre"):
+            got = []
+            _oracle_closed_form(dict(fam=f, n=n, add=add, x=x), raw, entry, lambda c_, m_, e_: got.append((c_, m_, e_)))
+            for c_, m_, e_ in got:
+                bad("closed_form" if c_ == "closed_form" else c_, f"marginal family {f!r} evaluated with the options of the whole basis ({opts}): {m_}", e_)
+                return
+
+
 def _oracle_bs(V, xs, a, b, nfun, p, entry, bad, row0=0):
     """V: rows row0..nfun-1 of the nfun-function basis (row0 = 1: the basis without its first function)."""
     if row0:
@@ -987,6 +1038,9 @@ def oracle(case, impl):
         if impl["shape"] != [n1 * n2, m1, m2]:
             bad("shape", f"shape {impl['shape']} vs {[n1 * n2, m1, m2]}", "Basis")
             return vs
+        if "marg_raw" in impl:
+            _oracle_marginals(case["fam"], case["n"], [case["x1"], case["x2"]], case["add"], impl["marg_raw"], "Basis", bad,
+                              f"degree={case.get('p')}, domain={'explicit' if 'dmin' in case else 'default'}")
         V = np.array(impl["v"]).reshape(n1 * n2, m1, m2)
         A, B = np.array(impl["m1"]), np.array(impl["m2"])
         want = np.einsum("ia,jb->ijab", A, B).reshape(n1 * n2, m1, m2)
@@ -998,6 +1052,8 @@ def oracle(case, impl):
         if impl["shape"] != [int(np.prod(ns))] + ms:
             bad("shape", f"shape {impl['shape']} vs {[int(np.prod(ns))] + ms}", "Basis")
             return vs
+        _oracle_marginals(case["fam"], ns, case["x3"], case["add"], impl["marg_raw"], "Basis", bad,
+                          f"degree={case.get('p')}, domain={'explicit' if 'dmin' in case else 'default'}")
         V = np.array(impl["v"])
         want = _tensor([np.array(m_) for m_ in impl["marg"]]).reshape(V.shape[0], -1)
         if not np.allclose(V, want, rtol=1e-14, atol=1e-300, equal_nan=True):
@@ -1013,6 +1069,7 @@ def oracle(case, impl):
             return vs
         opts = f"degree={case.get('p')}, domain={'explicit' if 'dmin' in case else 'default'}, is_normalized={case['norm']}, add_intercept={case['add']}"
         for ci, c in enumerate(comps):
+            _oracle_marginals(c["fam"], c["n"], c["x"], case["add"], impl["marg_raw"][ci], "MultivariateBasis", bad, opts)
             V = np.array(impl["comp"][ci])
             want_shape = [int(np.prod(c["n"]))] + [len(x) for x in c["x"]]
             if impl["shapes"][ci] != want_shape:
@@ -1068,6 +1125,8 @@ def classify(case, impl):
     if case["kind"] == "multi":
         tags.append("multi:dims=" + "+".join(str(len(c["n"])) for c in case["comps"]))
         tags.append(f"multi:degree={case.get('p')},domain={'explicit' if 'dmin' in case else 'default'}")
+    if case.get("foreign"):
+        tags.append("foreign-options:" + "+".join(sorted(case["foreign"])))
     if case.get("xdtype"):
         tags.append("grid-dtype:" + case["xdtype"])
     elif case.get("structured"):
